@@ -1201,36 +1201,36 @@ def _safe_verify(u, seed, rlimit, do_canary):
 
 
 BOUNDED_STANDS_IN = {
-    "C14": "SortFilter/SortNaturalFilter (std sort_by with the nil-safe comparators), UniqFilter, CompactFilter, ConcatFilter, MapFilter, WhereFilter, ReverseFilter, First/Last/Join (iterator chains over dyn ValueView), as_sequence",
+    "C14": "SortFilter/SortNaturalFilter (std sort_by with the nil-safe comparators), UniqFilter, CompactFilter, ConcatFilter, MapFilter, WhereFilter, JoinFilter (iterator chains without a usable vstd contract), as_sequence",
     "C08": "effects across the partial boundary (assignments through RefCell, interrupts in the sandbox's own registers, shared counters), the partial stores (eager compiler), render `with`/`for` argument parsing",
     "C09": "hidden state anywhere outside the runtime (statics, caches in renderables or partial stores), Registers::default, the lazily compiled partial store; renders that fail midway",
     "C11": "value_eq / value_cmp on arrays, objects, nil, states, strings, dates and date-times (iterator chains over dyn ValueView; the Date/DateTime arms of scalar_eq/scalar_cmp), construction independence of objects",
     "C12": "serde_json round trips (incl. date-times with a sub-millisecond fraction), to_value / from_value integer narrowing, structs exposed through derive(ObjectView, ValueView) against the same struct converted through serde; the forwarding impls themselves are under contract (unit views)",
-    "C05": "For::render_to / TableRow::render_to glue, Range::evaluate, get_array, evaluate_attr, break/continue handling (state behind RefCell)",
-    "C06": "value_eq / value_cmp (veq/vcmp are uninterpreted in the contracts), query_state tables, parse_condition / CaseBlock::parse (pest tokens)",
-    "C07": "Variable::evaluate, find/try_find/augmented_get, parse_literal and literal printing",
-    "C10": "liquid::Template::render_to/render (src/template.rs), For/TableRow/IfChanged/Cycle/Capture/Include/Render::render_to, std's write_fmt/write_all",
+    "C05": "descending integer ranges (vstd has no contract for an empty RangeInclusive), break/continue handling (interrupt state behind RefCell), argument parsing of the tags",
+    "C06": "value_eq / value_cmp on non-scalars (veq/vcmp are uninterpreted in the contracts), scalar query_state tables beyond Kani's domain, parse_condition / CaseBlock::parse (pest tokens)",
+    "C07": "parse_literal and literal printing (pest grammar), the ObjectView/ArrayView impls of user data; end-to-end paths over nested data as a cross-check of the units",
+    "C10": "what bytes a chunk contains, Display impls that reach the sink in several writes (arrays, objects), short writes (std's write_all), error paths that format the text",
     "C13": "str adapters (chars/skip/take/collect are assumed in the contract), the derive-generated argument evaluation, the other string filters used in the composition law",
     "C15": "ScalarCow::to_integer/to_float (numeric strings), f64 intrinsics floor/ceil/round and the float->int cast (uninterpreted in the contracts), Display of numbers",
-    "C18": "set_global/set_index/get_index effects through RefCell, RuntimeBuilder::build, model::find/try_find, drop of a layer",
-    "C04": "Assign/Capture/For/Include glue, persistence of assignments (RefCell), RuntimeBuilder::build",
+    "C18": "what a RefCell contains after set_global/set_index (only the target cell is under contract), drop of a layer",
+    "C04": "persistence of the assigned value (RefCell content), lifetime of loop scopes, derive-generated argument evaluation of the tags",
     "C02": "every function reached by the battery inputs of the other properties (no panic)",
 }
 BATTERY_BOUNDS_THOROUGH = "thorough tier: C05 lengths 0..6 x offset/limit {absent, 0..8} (the property's own bound); C15 additionally 1500 random 64-bit operand pairs (VERIF_SEED); C04 6000 generated programs; C18 stack model to depth 3"
 BATTERY_BOUNDS = {
-    "C14": "all orderings of up to 4 elements drawn from pools of integers with duplicates and nils, strings with duplicates and nils, all-nil, singleton and empty arrays (400 arrays) for sort/reverse/uniq/compact/concat/size/join/first/last; case-differing strings for sort_natural; all orderings of up to 4 objects from 7 (property present, absent, nil, false, duplicates) for map/where/compact/sort by property incl. stability",
-    "C08": "460 caller programs x 7 partials: include and render with 4 argument forms, from outside and inside loops, reading/assigning/counting/breaking/continuing over shared names, missing and unparsable partials on executed and dead paths; against a reference interpreter of the two scoping disciplines",
-    "C09": "all histories of 3 render calls over 3 templates (stateful constructs, a render failing midway inside a loop after a break and inside capture, include/render of a partial) x 2 data objects sharing one parser, and all histories of 5 calls over 2 templates x 2 data; every call compared with a freshly built parser",
+    "C14": "all orderings of up to 4 elements drawn from pools of integers with duplicates and nils, strings with duplicates and nils, all-nil, singleton and empty arrays (400 arrays) for sort/reverse/uniq/compact/concat/size/join/first/last; case-differing strings for sort_natural; all orderings of up to 4 objects from 7 (property present, absent, nil, false, duplicates) for map/where/compact/sort by property incl. stability; where with nil targets (literal and variable); map / where on property names that collide with the path overlay (size, first, last); stability on 40-element arrays",
+    "C08": "700 caller programs x 8 partials: include and render with 5 argument forms (incl. same-name forwarding), from outside and inside loops, reading/assigning/counting/breaking/continuing over shared names, counters bumped before the call, missing and unparsable partials on executed and dead paths; against a reference interpreter of the two scoping disciplines",
+    "C09": "all histories of 3 render calls over 3 templates (stateful constructs, a render failing midway inside a loop after a break and inside capture, include/render of a partial) x 2 data objects sharing one parser, all histories of 5 calls over 2 templates x 2 data, histories with ifchanged whose first content repeats the previous render's last, a capture failing after it captured text followed by another capture, and histories interleaving render_to calls whose sink fails; every call compared with a freshly built parser on a fresh thread",
     "C11": "all ordered pairs of a 49-value pool (nil, booleans, integers incl. 2^53 and the i64 bounds, floats incl. +-0, inf, NaN, strings, dates and date-times on equal and different days, empty/blank, arrays and objects nested two deep incl. multi-key objects), each value built twice independently",
-    "C12": "the same 49 values through to_value, ValueCow::{Owned,Borrowed}, as_view, Option/& and serde_json; integers at the u64/i64 boundary; 6 instances of 3 derived structs (all-default, filled, blank-ish, nested) against their serde conversion on every state query, kind, size, key and member",
+    "C12": "the same 49 values through to_value, ValueCow::{Owned,Borrowed}, as_view, Option/& and serde_json; integers at the u64/i64 boundary; 10 float values (whole, fractional, beyond 2^63, inf, NaN) read into 6 integer types; 6 chars incl. non-ASCII through serde and back; 6 instances of 3 derived structs (all-default, filled, blank-ish, nested) against their serde conversion on every state query, kind, size, key and member",
     "C05": "arrays of length 0..4 x offset {absent,0,1,2,5} x limit {absent,0,1,2,5} x reversed; ranges incl. empty/descending; tablerow cols {absent,1,2,3}; break/continue at index 1..3 in two nesting levels",
-    "C06": "all ordered pairs of a 16-value pool for the ==/!=/</>/<=/>=/case laws; truthiness of each; if/elsif chains of 1..4 arms with all truth assignments; case arms incl. empty bodies; or/and grouping",
-    "C07": "arrays of length 0..3, every index in [-len-2, len+1] as literal, variable and nested path; integer literals at the 64-bit boundaries",
-    "C10": "9 templates covering text, output, for, raw, increment/decrement, cycle, if/unless/case, tablerow, ifchanged, capture/assign, include/render; sink failing at every write k, sinks accepting 1 or 3 bytes per call, short-then-fail at every call",
+    "C06": "all ordered pairs of a 16-value pool for the ==/!=/</>/<=/>=/case laws; truthiness of each; if/elsif chains of 1..4 arms with all truth assignments; case arms incl. empty bodies, duplicate arms and content before the first when; contains over 8 containers x 8 needles incl. nil; nil / empty / blank strings, arrays and objects against the empty and blank literals in both orders and in case/when; or/and grouping",
+    "C07": "arrays of length 0..3, every index in [-len-2, len+1] as literal, variable and nested path; every path of length 1..3 (thorough: 4) over nested data whose keys collide with size/first/last, integer-like keys and strings, against a reference step function; integer literals at the 64-bit boundaries and 2^53",
+    "C10": "15 templates covering text (incl. long non-ASCII), output (incl. arrays and objects that reach the sink in several writes), for, raw, increment/decrement, cycle, if/unless/case, tablerow, ifchanged, capture/assign, include/render, elements that write after a child raised an interrupt; sink failing at every write k, sinks accepting 1 or 3 bytes per call, short-then-fail at every call",
     "C13": "6 strings (ASCII and non-ASCII) x offsets -7..8 x lengths {absent,1,2,5}; arrays of length 0,1,3; chain composition for 5 chains",
     "C15": "all pairs of 18 boundary integers for 7 binary filters, abs and numeric strings on each, floor/ceil/round on k/8 for |k| <= 40",
     "C18": "state-space exploration of push scope/sandbox/global, assign-global, set-counter to depth 2 (quick) / 3 (thorough) over all 9 base maps, every path of length 1..2 in both lookup forms, roots and counters, against a stack-of-maps model",
-    "C04": "12 scoping templates (assign/capture persistence, loop-variable lifetime, shadowing order, include arguments, counters)",
+    "C04": "19 scoping templates (assign/capture persistence incl. empty captures, loop-variable lifetime, shadowing order, include arguments incl. same-name forwarding against assign/capture inside the partial, counters) and 3200 generated programs against a reference interpreter",
 }
 
 
